@@ -586,7 +586,10 @@ class C01(ost.OutstationProp):
             return fails
         errs = [i for i, l in enumerate(impl) if l.startswith("err ")]
         if "overflow" in impl:
-            return fails      # the reader offered less room than the model predicted: shown by the model diff
+            # the reads were cut to fit a buffer of one maximum frame (292 octets) per 249 octets of fragment plus one
+            fails.append(("reader-room", "%s engine: the reader offered less room than the reference buffer geometry: a well-formed "
+                          "maximum-size frame cannot be read (%s/%s)" % (m["engine"], m["mode"], m["kind"])))
+            return fails
         if m["engine"] == "link":
             got = [l for l in impl if l.startswith("frame ")]
         else:
